@@ -1,6 +1,8 @@
-from . import run_graph
+from . import run_graph, run_pie
 RUNNERS = {
     'C10': run_graph.run,
     'C11': run_graph.run,
 }
-HARNESS_BINS = ['graph_ops']
+for p in ('C01', 'C02', 'C03', 'C04', 'C05', 'C06', 'C07', 'C08', 'C09', 'C16', 'C18', 'C19', 'C20'):
+    RUNNERS[p] = run_pie.run
+HARNESS_BINS = ['graph_ops', 'pie_hist']
